@@ -939,6 +939,9 @@ def index_orders(mod: Module, cls: str) -> tuple[dict, list]:
 #     delegates to with `yield from self.m(...)` carry the caller's values, and the callee is interpreted in place;
 #   * an index level / the context's triple set may be looked up by `v[k]`, by `v.get(k)` followed by an `is None` test (the value is
 #     usable on the not-None side only), or by `v.get(k, <empty container>)` (a missing key enumerates nothing);
+#   * which shape is being interpreted decides every boundness test exactly, so a value built only from such tests (a bool, a tuple of them,
+#     a local that holds one) is a known Python value: an `if` on it and a `match` on it (first case whose literal / sequence / wildcard /
+#     or-pattern accepts it and whose guard folds to True) take exactly one branch; anything not decided that way stays unmodelled;
 #   * the context key is the result of a method of self applied to the `context` argument (found by position in the public signature);
 #   * the per-triple context filter is a test that asks whether THIS triple is in the requested context's triple set: written in place
 #     (`t in self.X.get(key, ())`) or as a method of self that is handed the triple and the key and returns such a test.
@@ -956,6 +959,11 @@ def _is_empty_container(e: ast.AST) -> bool:
     if isinstance(e, ast.Dict) and not e.keys:
         return True
     return isinstance(e, ast.Call) and isinstance(e.func, ast.Name) and e.func.id in ("dict", "set", "frozenset", "tuple", "list") and not e.args and not e.keywords
+
+
+def _flags(v) -> bool:
+    """a bool, or a tuple/list of such"""
+    return isinstance(v, bool) or (isinstance(v, (tuple, list)) and bool(v) and all(_flags(x) for x in v))
 
 
 def _comp(v) -> bool:
@@ -1135,6 +1143,8 @@ class PatternInterp:
             if v and v[0] == "pat":
                 self.truthy_tests.append(t)
                 return None
+            if v and v[0] == "const" and isinstance(v[1], bool):
+                return v[1]  # a name that holds the outcome of a boundness test
         return None
 
     def _filter_call(self, c: ast.Call, env):
@@ -1270,6 +1280,11 @@ class PatternInterp:
                 self.note_subscript(v, ("view", val[1], val[2][:-1]) if val[0] == "optview" else val, env, s)
                 env["vars"][t.id] = val
                 return [env]
+            if val and val[0] == "triple" and not any(_comp(c) for c in val[1]):
+                sv = self.static(v, env)  # three boundness flags, not three terms
+                if sv is not None and _flags(sv[1]):
+                    env["vars"][t.id] = sv
+                    return [env]
             if val and val[0] in ("triple", "ctxset", "ctxkey", "pat", "loop", "ctxtriple", "gen"):
                 env["vars"][t.id] = val
                 return [env]
@@ -1277,6 +1292,12 @@ class PatternInterp:
                 r = self._class_callee(env, v)
                 if r is not None and any(self.val(a, env) == ("context",) for a in list(v.args) + [k.value for k in v.keywords]):
                     env["vars"][t.id] = ("ctxkey",)
+                    return [env]
+            if not isinstance(v, ast.Constant):
+                # the outcome of boundness tests (a bool, a tuple of them) kept in a local: known exactly for the shape being interpreted
+                sv = self.static(v, env)
+                if sv is not None and _flags(sv[1]):
+                    env["vars"][t.id] = sv
                     return [env]
         self.unmodelled.append((s, "assignment form"))
         return [env]
@@ -1390,7 +1411,91 @@ class PatternInterp:
             for h in s.handlers:
                 out += self.block(h.body, self.copy(env))
             return out
+        if isinstance(s, ast.Match):
+            return self._match(s, env)
         self.unmodelled.append((s, "statement %s" % type(s).__name__))
+        return [env]
+
+    # ------------------------------------------------------------------ dispatch on statically known values (`match`)
+    def static(self, e: ast.AST, env):
+        """('const', v) when, for the pattern shape being interpreted, the expression has exactly the Python value v: a literal, a boundness
+        test of a pattern position (a real bool), a tuple/list of such, a name bound to such; None otherwise"""
+        if isinstance(e, ast.Constant):
+            return ("const", e.value)
+        if isinstance(e, ast.Name):
+            v = env["vars"].get(e.id)
+            return v if v and v[0] == "const" else None
+        if isinstance(e, (ast.Tuple, ast.List)):
+            vs = [self.static(x, env) for x in e.elts]
+            if any(v is None for v in vs) or any(isinstance(x, ast.Starred) for x in e.elts):
+                return None
+            return ("const", tuple(v[1] for v in vs) if isinstance(e, ast.Tuple) else [v[1] for v in vs])
+        if isinstance(e, (ast.Compare, ast.BoolOp)) or (isinstance(e, ast.UnaryOp) and isinstance(e.op, ast.Not)):
+            f = self.fold(e, env)
+            return ("const", f) if isinstance(f, bool) else None
+        return None
+
+    def _pattern(self, p: ast.AST, v):
+        """does the match pattern accept the Python value v: True / False, with the names it binds; None when the pattern is of a kind that is
+        not decided here (class, mapping, star patterns)"""
+        if isinstance(p, ast.MatchSingleton):
+            return (v is p.value), {}
+        if isinstance(p, ast.MatchValue):
+            if not isinstance(p.value, ast.Constant):
+                return None
+            return (type(v) in (bool, int, float, str, bytes, type(None)) and v == p.value.value), {}
+        if isinstance(p, ast.MatchAs):
+            if p.pattern is None:
+                return True, ({p.name: ("const", v)} if p.name else {})
+            r = self._pattern(p.pattern, v)
+            if r is None or not r[0]:
+                return r
+            return True, dict(r[1], **({p.name: ("const", v)} if p.name else {}))
+        if isinstance(p, ast.MatchOr):
+            for q in p.patterns:
+                r = self._pattern(q, v)
+                if r is None or r[0]:
+                    return r
+            return False, {}
+        if isinstance(p, ast.MatchSequence):
+            if any(isinstance(q, ast.MatchStar) for q in p.patterns):
+                return None
+            if not isinstance(v, (tuple, list)) or len(v) != len(p.patterns):
+                return False, {}
+            binds: dict = {}
+            for q, x in zip(p.patterns, v):
+                r = self._pattern(q, x)
+                if r is None or not r[0]:
+                    return r
+                binds.update(r[1])
+            return True, binds
+        return None
+
+    def _match(self, s: ast.Match, env) -> list:
+        """`match <value known for this shape>`: the first case whose pattern accepts the value (and whose guard holds) is the one that runs, the
+        others do not; no case accepting it = the statement does nothing. A subject or a pattern that is not decided = unmodelled."""
+        sv = self.static(s.subject, env)
+        if sv is None:
+            self.unmodelled.append((s, "match on `%s`, a value that is not known from the boundness of the pattern positions" % norm(s.subject)[:60]))
+            return [env]
+        for c in s.cases:
+            r = self._pattern(c.pattern, sv[1])
+            if r is None:
+                self.unmodelled.append((s, "case pattern `%s` is not decided" % norm(c.pattern)[:60]))
+                return [env]
+            ok, binds = r
+            if not ok:
+                continue
+            e2 = self.copy(env)
+            e2["vars"].update(binds)
+            if c.guard is not None:
+                g = self.fold(c.guard, e2)
+                if g is False:
+                    continue
+                if g is not True:
+                    self.unmodelled.append((s, "case guard `%s` decides whether a yield is reached" % norm(c.guard)[:60]))
+                    return [env]
+            return self.block(c.body, e2)
         return [env]
 
     def _delegate(self, s, call: ast.AST, env) -> list:
